@@ -276,21 +276,20 @@ theorem tagTuples_eq_nil_iff (u : UInfo) (tagss : List (List Str)) : tagTuples u
       rw [h] at hk; cases hk
   · rintro rfl; rfl
 
-theorem mockTagToOps_eq_gfold (ops : List TagOp) : mockTagToOps ops = gfold firstTag (·.id) ops [] := rfl
+/-- F23 repaired: the `tag_tuples` the mocks emitter hands to `generate_client_mock_class` ARE the tuples of
+    `ClientVisitor.visit` — same tuples, same order. -/
+theorem mockTuples_eq_tagTuples (u : UInfo) (tagss : List (List Str)) : mockTuples u tagss = tagTuples u tagss := by
+  unfold mockTuples tagTuples
+  simp only
+  rw [← groupMocks_map_canon u (opsOfTags tagss) (mkTuple u)]
+  apply List.map_congr_left
+  intro g hg
+  rw [groupMocks_mk u (opsOfTags tagss) g hg]
+  rfl
 
 theorem mockTuples_eq_nil_iff (u : UInfo) (tagss : List (List Str)) : mockTuples u tagss = [] ↔ tagss = [] := by
-  constructor
-  · intro h
-    cases tagss with
-    | nil => rfl
-    | cons ts rest =>
-      exfalso
-      unfold mockTuples groupMocks at h
-      simp only [List.map_eq_nil_iff] at h
-      have := gfold_has_entry firstTag (·.id) (opsOfTags (ts :: rest)) ⟨[], ts⟩ (by simp [opsOfTags])
-      rw [← mockTagToOps_eq_gfold, h] at this
-      cases this
-  · rintro rfl; rfl
+  rw [mockTuples_eq_tagTuples]
+  exact tagTuples_eq_nil_iff u tagss
 
 /-! ## Character-level shape of a module name -/
 
